@@ -1044,3 +1044,405 @@ func successWithout(g *ssa.Function, action ssa.Instruction) *ssa.Return {
 	}
 	return nil
 }
+
+// successWithoutAction returns a Return of g reachable from the entry without
+// executing action (any result); nil when every return comes after it.
+func successWithoutAction(g *ssa.Function, action ssa.Instruction) *ssa.Return {
+	reach := an.Reach([]*ssa.BasicBlock{g.Blocks[0]}, func(b *ssa.BasicBlock, i int) bool { return b == action.Block() })
+	for _, ret := range an.Returns(g) {
+		if reach[ret.Block()] && ret.Block() != action.Block() {
+			return ret
+		}
+	}
+	return nil
+}
+
+// ---------------------------------------------------------------------------
+// C09: what the parser resolved is stale after the first change
+
+// parseTimeState: go/parser resolves identifiers once (Ident.Obj, File.Scope,
+// File.Unresolved, Object.*, Scope.*). Replacements edit the tree in place and
+// do not maintain any of it, so from the second change of a run on it describes
+// a file that no longer exists. Closed inventory of reads.
+var parseTimeStateReads = map[string]string{
+	"internal/engine|Ident.Obj": "usesNameAsTopLevel counts an identifier as a use of the package only when the parser did not resolve it to a declaration in the file (Obj == nil); identifiers introduced by a replacement have Obj == nil (the replacer never reproduces Obj), so they count as uses — stale data can only keep an import, never delete one",
+}
+
+func parseTimeState(r *an.Run, rule string) {
+	r.Rule(rule)
+	stale := func(t types.Type, field string) bool {
+		switch {
+		case an.IsNamed(t, "go/ast", "File"):
+			return field == "Unresolved" || field == "Scope"
+		case an.IsNamed(t, "go/ast", "Ident"):
+			return field == "Obj"
+		case an.IsNamed(t, "go/ast", "Object"), an.IsNamed(t, "go/ast", "Scope"):
+			return true
+		}
+		return false
+	}
+	n := 0
+	seen := map[string]bool{}
+	for _, f := range r.P.ModuleFuncs() {
+		rel := strings.TrimPrefix(strings.TrimPrefix(an.FuncPkgPath(f), an.Module), "/")
+		if strings.HasPrefix(rel, "tools") || strings.HasPrefix(rel, "internal/pgo") || rel == "internal/goast" {
+			continue // pattern side: parsed once, never rewritten
+		}
+		for _, b := range f.Blocks {
+			for _, in := range b.Instrs {
+				var t types.Type
+				var field string
+				switch x := in.(type) {
+				case *ssa.FieldAddr:
+					t = x.X.Type().Underlying().(*types.Pointer).Elem()
+					field = fieldNameOf(x)
+				case *ssa.Field:
+					t = x.X.Type()
+					field = fieldNameOfStruct(x.X.Type(), x.Field)
+				default:
+					continue
+				}
+				if !stale(t, field) {
+					continue
+				}
+				n++
+				key := rel + "|" + astTypeName(t) + "." + field
+				if why, ok := parseTimeStateReads[key]; ok {
+					if !seen[key] {
+						seen[key] = true
+						r.Pass(key, in.Pos(), "inventoried use of parse-time resolution: %s", why)
+					}
+					continue
+				}
+				r.Fail(key+"|"+short(f), in.Pos(), "%s uses %s.%s, which go/parser computed for the file as it was read: replacements edit the tree in place without maintaining it, so a later change of the same run would decide on code that is no longer (or not yet) there", short(f), astTypeName(t), field)
+			}
+		}
+	}
+	r.Count("uses of parse-time resolution state", n)
+	r.Min("uses of parse-time resolution state", 1)
+}
+
+// ---------------------------------------------------------------------------
+// C10: the guards of the '-' side reach the file matcher
+
+// isPgoFile reports whether t is pgo.File or *pgo.File.
+func isPgoFile(t types.Type) bool {
+	if p, ok := t.Underlying().(*types.Pointer); ok {
+		t = p.Elem()
+	}
+	return an.IsNamed(t, an.Module+"/internal/pgo", "File")
+}
+
+// loadsField reports whether v is a load of field `name` of a value accepted
+// by recv (directly or through a local copy).
+func loadsFieldOf(v ssa.Value, name string, recv func(ssa.Value) bool) bool {
+	switch x := v.(type) {
+	case *ssa.UnOp:
+		if fa, ok := x.X.(*ssa.FieldAddr); ok && x.Op == token.MUL && fieldNameOf(fa) == name {
+			return recv == nil || recv(fa.X)
+		}
+	case *ssa.Field:
+		if fieldNameOfStruct(x.X.Type(), x.Field) == name {
+			return recv == nil || recv(x.X)
+		}
+	}
+	return false
+}
+
+func c10GuardsReachMatcher(r *an.Run) {
+	r.Rule("R7-guards-reach-the-matcher")
+	// (1) matcherCompiler.compileFile: FileMatcher{Package: file.Package, Imports: compileImports(file.Imports)}
+	if f := fn(r, engine, "matcherCompiler.compileFile"); f != nil {
+		file := paramAt(f, 0)
+		isFile := func(v ssa.Value) bool { return v == ssa.Value(file) }
+		var pkgOK, impOK bool
+		for _, in := range an.StoresIn(f) {
+			st, ok := in.(*ssa.Store)
+			if !ok {
+				continue
+			}
+			fa, ok := st.Addr.(*ssa.FieldAddr)
+			if !ok || !strings.HasSuffix(an.ShortType(fa.X.Type()), "FileMatcher") {
+				continue
+			}
+			switch fieldNameOf(fa) {
+			case "Package":
+				pkgOK = loadsFieldOf(st.Val, "Package", isFile)
+			case "Imports":
+				if c, ok := st.Val.(*ssa.Call); ok && an.StaticCallee(c) == r.P.Func(engine, "matcherCompiler.compileImports") {
+					impOK = loadsFieldOf(c.Call.Args[len(c.Call.Args)-1], "Imports", isFile)
+				}
+			}
+		}
+		r.Check(pkgOK, short(f)+"|package", f.Pos(), "the file matcher's package guard is the package clause of the pattern file it is compiled from")
+		r.Check(impOK, short(f)+"|imports", f.Pos(), "the file matcher's import guards are compiled from the imports of the pattern file it is compiled from")
+	}
+	// (2) compileChange compiles the matcher from Patch.Minus
+	if f := fn(r, engine, "compiler.compileChange"); f != nil {
+		good := false
+		for _, c := range an.Calls(f) {
+			if an.StaticCallee(c) == r.P.Func(engine, "matcherCompiler.compileFile") {
+				a := c.Common().Args
+				good = loadsFieldOf(a[len(a)-1], "Minus", nil)
+			}
+		}
+		r.Check(good, short(f)+"|minus-side", f.Pos(), "the matcher of a change is compiled from the '-' side of its patch")
+	}
+	// (3) a pattern file is never rebuilt without its guards: every pgo.File constructed outside the
+	// pattern parser copies Package and Imports from a pgo.File; what is stored as a patch side is a parser result
+	n := 0
+	for _, f := range r.P.ModuleFuncs() {
+		rel := strings.TrimPrefix(strings.TrimPrefix(an.FuncPkgPath(f), an.Module), "/")
+		if strings.HasPrefix(rel, "tools") {
+			continue
+		}
+		for _, b := range f.Blocks {
+			for _, in := range b.Instrs {
+				al, ok := in.(*ssa.Alloc)
+				if !ok || !isPgoFile(al.Type()) {
+					continue
+				}
+				if _, isStruct := al.Type().Underlying().(*types.Pointer).Elem().Underlying().(*types.Struct); !isStruct {
+					continue
+				}
+				n++
+				if short(f) == "internal/pgo.Parse" {
+					c10ParserFillsGuards(r, f, al)
+					continue
+				}
+				for _, g := range []string{"Package", "Imports"} {
+					copied := false
+					for _, ref := range *al.Referrers() {
+						fa, ok := ref.(*ssa.FieldAddr)
+						if !ok || fieldNameOf(fa) != g {
+							continue
+						}
+						for _, u := range *fa.Referrers() {
+							if st, ok := u.(*ssa.Store); ok && st.Addr == ssa.Value(fa) && loadsFieldOf(st.Val, g, func(x ssa.Value) bool { return isPgoFile(x.Type()) }) {
+								copied = true
+							}
+						}
+					}
+					r.Check(copied, short(f)+"|rebuilds-pattern-file|"+g, al.Pos(), "%s builds a pgo.File and carries over %s from the file it replaces: a pattern side rebuilt without its package clause / imports loses the guard, and the change applies to files it must not touch", short(f), g)
+				}
+			}
+		}
+	}
+	// ... and never edited afterwards
+	for _, f := range r.P.ModuleFuncs() {
+		if strings.Contains(an.FuncPkgPath(f), "/tools") {
+			continue
+		}
+		for _, in := range an.StoresIn(f) {
+			st, ok := in.(*ssa.Store)
+			if !ok {
+				continue
+			}
+			fa, ok := st.Addr.(*ssa.FieldAddr)
+			if !ok || !isPgoFile(fa.X.Type()) {
+				continue
+			}
+			if _, own := fa.X.(*ssa.Alloc); own {
+				continue // construction, checked above
+			}
+			g := fieldNameOf(fa)
+			if g != "Package" && g != "Imports" {
+				continue
+			}
+			r.Fail(short(f)+"|edits-pattern-file|"+g, st.Pos(), "%s overwrites %s of a parsed pattern file: the guard the user wrote no longer reaches the matcher", short(f), g)
+		}
+	}
+	r.Count("pgo.File constructions", n)
+	r.Min("pgo.File constructions", 1)
+}
+
+// c10ParserFillsGuards: in pgo.Parse the File's Package is the parsed package
+// name and Imports the parsed import specs.
+func c10ParserFillsGuards(r *an.Run, f *ssa.Function, al *ssa.Alloc) {
+	var pkgOK, impOK bool
+	for _, ref := range *al.Referrers() {
+		fa, ok := ref.(*ssa.FieldAddr)
+		if !ok {
+			continue
+		}
+		for _, u := range *fa.Referrers() {
+			st, ok := u.(*ssa.Store)
+			if !ok || st.Addr != ssa.Value(fa) {
+				continue
+			}
+			switch fieldNameOf(fa) {
+			case "Package":
+				if s, isc := an.ConstString(st.Val); isc && s == "" {
+					continue // the fake package clause is cleared (R5)
+				}
+				pkgOK = loadsFieldOf(st.Val, "Name", func(x ssa.Value) bool {
+					return an.IsNamed(x.Type().Underlying().(*types.Pointer).Elem(), "go/ast", "Ident") && loadsFieldOf(x, "Name", func(y ssa.Value) bool {
+						return an.IsNamed(y.Type().Underlying().(*types.Pointer).Elem(), "go/ast", "File")
+					})
+				})
+			case "Imports":
+				impOK = loadsFieldOf(st.Val, "Imports", func(x ssa.Value) bool { return an.IsNamed(x.Type().Underlying().(*types.Pointer).Elem(), "go/ast", "File") })
+			}
+		}
+	}
+	r.Check(pkgOK, short(f)+"|package-from-source", al.Pos(), "the pattern file's package guard is the package name go/parser read")
+	r.Check(impOK, short(f)+"|imports-from-source", al.Pos(), "the pattern file's import guards are the import specs go/parser read")
+}
+
+// ---------------------------------------------------------------------------
+// C13 / C19: line information is attached to the file that holds this side
+
+// lineInfoReceiver: the *token.File that receives AddLineColumnInfo is
+// identified through the object that was just created for this text — the
+// result of FileSet.AddFile, or FileSet.File(pos) for a position taken from
+// the result of parsing this very side — never through a key that other
+// changes may share (a file name built from the change's name: two changes
+// may carry the same name, and the second one's lines would be attached to
+// the first one's file).
+func lineInfoReceiver(r *an.Run, rule string) {
+	r.Rule(rule)
+	n := 0
+	for _, name := range []string{"parser.parsePatchVersion", "parser.parseMeta"} {
+		f := fn(r, parseP, name)
+		if f == nil {
+			continue
+		}
+		for _, g := range helperGroup(f, 2) {
+			for _, c := range an.CallsTo(g, "(*go/token.File).AddLineColumnInfo") {
+				n++
+				recv := c.Common().Args[0]
+				byObject := false
+				for v := range an.BackSlice(recv, an.SliceOpts{ThroughCalls: true, ThroughMemory: true}) {
+					call, ok := v.(*ssa.Call)
+					if !ok {
+						continue
+					}
+					if an.IsCallTo(call, "(*go/token.FileSet).AddFile") {
+						byObject = true
+					}
+					if sc := an.StaticCallee(call); sc != nil && short(sc) == "internal/pgo.Parse" {
+						byObject = true
+					}
+				}
+				if g != f {
+					// a helper: the file must be handed in by the caller, derived the same way
+					byObject = false
+					for _, cs := range an.Calls(f) {
+						if an.StaticCallee(cs) != g {
+							continue
+						}
+						for _, a := range cs.Common().Args {
+							for v := range an.BackSlice(a, an.SliceOpts{ThroughCalls: true, ThroughMemory: true}) {
+								if call, ok := v.(*ssa.Call); ok {
+									if an.IsCallTo(call, "(*go/token.FileSet).AddFile") {
+										byObject = true
+									}
+									if sc := an.StaticCallee(call); sc != nil && short(sc) == "internal/pgo.Parse" {
+										byObject = true
+									}
+								}
+							}
+						}
+					}
+				}
+				r.Check(byObject, short(f)+"|line-info-receiver", c.Pos(), "the token.File that receives the line table of this section is obtained from the object created for it (FileSet.AddFile result, or FileSet.File at a position of this side's parse result), not looked up by a name other changes may share")
+			}
+		}
+	}
+	r.Count("line-info receivers", n)
+	r.Min("line-info receivers", 2)
+}
+
+// ---------------------------------------------------------------------------
+// C05: what is written to a path is the rewrite of what was read from it
+
+// sameFileValue reports whether a and b denote the same per-file value: the
+// same SSA value, or loads of the same field of the same loop element.
+func sameFileValue(a, b ssa.Value) bool {
+	a, b = an.Unwrap(a), an.Unwrap(b)
+	if a == b {
+		return true
+	}
+	pa, pb := an.Path(a), an.Path(b)
+	if pa != "" && pa == pb {
+		return true
+	}
+	// field of the same struct value
+	fa, oka := a.(*ssa.Field)
+	fb, okb := b.(*ssa.Field)
+	if oka && okb && fa.X == fb.X && fa.Field == fb.Field {
+		return true
+	}
+	la, oka2 := a.(*ssa.UnOp)
+	lb, okb2 := b.(*ssa.UnOp)
+	if oka2 && okb2 {
+		xa, ok1 := la.X.(*ssa.FieldAddr)
+		xb, ok2 := lb.X.(*ssa.FieldAddr)
+		if ok1 && ok2 && xa.X == xb.X && xa.Field == xb.Field {
+			return true
+		}
+	}
+	return false
+}
+
+func c05FileIdentity(r *an.Run) {
+	r.Rule("R8-written-file-is-the-file-read")
+	m := buildRunModel(r)
+	if m == nil {
+		return
+	}
+	f := m.run
+	// the tree that is patched is the parse of what was read under this name
+	r.Check(sameFileValue(m.parse.Call.Args[1], m.filename), short(f)+"|parse-name", m.parse.Pos(), "the file is parsed under the name it was read from")
+	applyArgs := m.apply.Call.Args
+	parsed := an.ExtractOf(m.parse, 0)
+	r.Check(len(parsed) > 0 && an.Unwrap(applyArgs[len(applyArgs)-1]) == ssa.Value(parsed[0]), short(f)+"|apply-tree", m.apply.Pos(), "the patches are applied to the tree parsed from this file's bytes in this iteration")
+	r.Check(sameFileValue(applyArgs[len(applyArgs)-2], m.filename), short(f)+"|apply-name", m.apply.Pos(), "and under this file's name")
+	// what is printed is the tree Apply returned
+	n := 0
+	for _, c := range an.CallsTo(f, formatNode) {
+		if !m.loop.Loop.Blocks[c.Block()] {
+			continue
+		}
+		n++
+		a := c.Common().Args
+		r.Check(an.Unwrap(a[len(a)-1]) == m.fout, short(f)+"|printed-tree", c.Pos(), "the tree that is printed is the one the patches produced for this file")
+	}
+	r.Check(n == 1, short(f)+"|one-print", f.Pos(), "the rewritten tree is printed once per file (found %d format.Node calls in the loop)", n)
+	// every sink that names a file names this one
+	nw := 0
+	for _, s := range sinksOfRun(r, m) {
+		for _, a := range s.call.Common().Args {
+			if an.ShortType(a.Type()) != "string" {
+				continue
+			}
+			nw++
+			ok := sameFileValue(a, m.filename)
+			if !ok {
+				// the user-facing spelling of the same loop element (diff header)
+				ok = sameLoopElement(a, m.filename)
+			}
+			r.Check(ok, short(f)+"|sink-path|"+an.TrimModule(an.CalleeName(s.call)), s.call.Pos(), "%s: the path it is given belongs to the file whose bytes were read and rewritten in this iteration (an index into a second, differently filtered list would attribute one file's code to another)", s.what)
+		}
+	}
+	r.Count("path arguments of emission sinks", nw)
+	r.Min("path arguments of emission sinks", 2)
+}
+
+// sameLoopElement: a and b are fields of the same struct value (the element of
+// the file list the loop is at).
+func sameLoopElement(a, b ssa.Value) bool {
+	base := func(v ssa.Value) ssa.Value {
+		switch x := an.Unwrap(v).(type) {
+		case *ssa.Field:
+			return x.X
+		case *ssa.UnOp:
+			if fa, ok := x.X.(*ssa.FieldAddr); ok {
+				return fa.X
+			}
+		}
+		return nil
+	}
+	ba, bb := base(a), base(b)
+	return ba != nil && ba == bb
+}
